@@ -1,6 +1,235 @@
 import Driver.Util
+import Sqfs.Spec.IoLoops
+import Sqfs.Model.XfrmStream
+/-
+`sqfsmodel c12`: one scenario per line, same protocol as harness/h_c12.c.
+
+  readat  <data> <off> <size> <script>
+  writeat <file> <off> <data> <script>
+  ostream <s|n> <op,op,...> <script>            ops: d<data> | h<n> (hole) | f (flush)
+  istream <B> <s|n> <data> <op,op,...> <script> ops: g<want> a<count> R<size> S<size> P<size> L<flags> M<size>
+  spec    <B> <data> <op,op,...>                the specification (Sqfs.Spec.IoLoops) on the same client ops
+
+  <data>   = "-" | hex | g<seed>:<len>:<mode>   (generated, same generator as the harness)
+  <script> = "-" | comma list of p<k> (short count k+1) | i (EINTR) | e (EIO) | z (return 0)
+-/
 namespace Driver.C12
-/-- stub: the model driver for C12 is not built yet -/
+open Sqfs.IoLoops
+
+/-! tokens -/
+
+def fnv64 (bs : Bytes) : UInt64 :=
+  bs.foldl (fun h b => (h ^^^ b.toUInt64) * 0x100000001b3) 0xcbf29ce484222325
+
+def hex64 (x : UInt64) : String :=
+  let rec go (n : Nat) (x : Nat) (acc : List Char) : List Char :=
+    match n with
+    | 0 => acc
+    | n + 1 => go n (x / 16) (hexDigit (x % 16) :: acc)
+  String.ofList (go 16 x.toNat [])
+
+/-- output token: hex when short, else `#len:fnv64` -/
+def dtok (bs : Bytes) : String :=
+  if bs.length = 0 then "-"
+  else if bs.length ≤ 48 then toHex bs
+  else "#" ++ toString bs.length ++ ":" ++ hex64 (fnv64 bs)
+
+def genByte (mode : Nat) (v : Nat) : UInt8 :=
+  match mode with
+  | 0 => UInt8.ofNat (v % 256)
+  | 1 => ([97, 98, 99, 32, 9, 13, 10, 10] : List UInt8).getD (v % 8) 0
+  | 2 => if v % 1000 = 0 then 10 else UInt8.ofNat (97 + v % 26)
+  | _ => ([97, 32, 10, 0, 13, 200, 9, 10, 98, 32] : List UInt8).getD (v % 10) 0
+
+def genData (seed len mode : Nat) : Bytes :=
+  let rec go (n : Nat) (x : UInt64) (acc : Array UInt8) : Array UInt8 :=
+    match n with
+    | 0 => acc
+    | n + 1 =>
+      let x' := x * 6364136223846793005 + 1442695040888963407
+      go n x' (acc.push (genByte mode (x' >>> 33).toNat))
+  (go len (UInt64.ofNat seed) (Array.mkEmpty len)).toList
+
+def hexArr (cs : Array Char) : Option Bytes :=
+  if cs.size % 2 = 1 then none else
+  let rec go (n i : Nat) (acc : Array UInt8) : Option (Array UInt8) :=
+    match n with
+    | 0 => some acc
+    | n + 1 =>
+      match hexVal (cs.getD i ' '), hexVal (cs.getD (i + 1) ' ') with
+      | some x, some y => go n (i + 2) (acc.push (UInt8.ofNat (x * 16 + y)))
+      | _, _ => none
+  (go (cs.size / 2) 0 (Array.mkEmpty (cs.size / 2))).map Array.toList
+
+def parseData (t : String) : Option Bytes :=
+  if t = "-" then some []
+  else if t.startsWith "g" then
+    match (t.drop 1).toString.splitOn ":" with
+    | [a, b, c] => do
+      let s ← a.toNat?
+      let l ← b.toNat?
+      let m ← c.toNat?
+      pure (genData s l m)
+    | _ => none
+  else hexArr t.toList.toArray
+
+def parseEv (t : String) : Option Ev :=
+  if t = "i" then some .eintr
+  else if t = "e" then some .err
+  else if t = "z" then some .zero
+  else if t.startsWith "p" then (t.drop 1).toString.toNat?.map Ev.part
+  else none
+
+def parseScript (t : String) : Option (List Ev) :=
+  if t = "-" then some [] else (t.splitOn ",").mapM parseEv
+
+def parseOp (t : String) : Option Op :=
+  let n := (t.drop 1).toString.toNat?
+  if t.startsWith "g" then n.map Op.get
+  else if t.startsWith "a" then n.map Op.adv
+  else if t.startsWith "R" then n.map Op.read
+  else if t.startsWith "S" then n.map Op.skip
+  else if t.startsWith "P" then n.map Op.splice
+  else if t.startsWith "L" then n.map Op.line
+  else if t.startsWith "M" then n.map Op.record
+  else none
+
+def parseOps (t : String) : Option (List Op) :=
+  if t = "-" then some [] else (t.splitOn ",").mapM parseOp
+
+def parseOOp (t : String) : Option OOp :=
+  if t = "f" then some .flush
+  else if t.startsWith "h" then (t.drop 1).toString.toNat?.map OOp.hole
+  else if t.startsWith "d" then (parseData (t.drop 1).toString).map OOp.data
+  else none
+
+def parseOOps (t : String) : Option (List OOp) :=
+  if t = "-" then some [] else (t.splitOn ",").mapM parseOOp
+
+/-! rendering -/
+
+def errCode : Err → String
+  | .ok => "0"
+  | .io => "-" ++ toString Sqfs.Consts.errIo
+  | .oob => "-" ++ toString Sqfs.Consts.errOutOfBounds
+  | .compressor => "-" ++ toString Sqfs.Consts.errCompressor
+  | .fuel => "fuel"
+
+def traceTok (os : OS) : String :=
+  let calls := os.log.reverse
+  let s := ";".intercalate (calls.map fun c => toString c.kind ++ ":" ++ toString c.req ++ ":" ++ toString c.pos)
+  if calls.isEmpty then "-"
+  else if s.length ≤ 120 then s
+  else "#" ++ toString calls.length ++ ":" ++ hex64 (fnv64 s.toUTF8.toList)
+
+def tail (os : OS) : String :=
+  " left=" ++ toString os.sc.length ++ " trace=" ++ traceTok os
+
+def gret : GRet → String
+  | .ok => "0"
+  | .eof => "1"
+  | .fail e => errCode e
+
+def showObs : Obs → String
+  | .get r w => "g" ++ gret r ++ ":" ++ dtok w
+  | .adv => "a"
+  | .read (.n d) => "R" ++ toString d.length ++ ":" ++ dtok d
+  | .read (.fail e) => "R" ++ errCode e
+  | .skip e => "S" ++ errCode e
+  | .splice .ok total => "P" ++ toString total
+  | .splice e _ => "P" ++ errCode e
+  | .line (.line l) ln => "L0:" ++ dtok l ++ ":" ++ toString ln
+  | .line .eof ln => "L1:" ++ toString ln
+  | .line (.fail e) ln => "L" ++ errCode e ++ ":" ++ toString ln
+  | .record (some d) => "M:" ++ dtok d
+  | .record none => "Mnull"
+
+def showOstream (o : OStream) : String :=
+  "out=" ++ dtok o.out ++ " size=" ++ toString o.size ++ " sparse=" ++ toString o.sparse
+
+def oopLen : OOp → Nat
+  | .data d => d.length
+  | .hole n => n
+  | .flush => 0
+
+def step (line : String) : String :=
+  match words line with
+  | ["readat", d, off, size, sc] =>
+    match parseData d, off.toNat?, size.toNat?, parseScript sc with
+    | some file, some off, some size, some sc =>
+      match readAt file off size ⟨sc, []⟩ with
+      | (e, buf, os) => "rc=" ++ errCode e ++ " buf=" ++ dtok buf ++ tail os
+    | _, _, _, _ => "bad-op"
+  | ["writeat", f, off, d, sc] =>
+    match parseData f, off.toNat?, parseData d, parseScript sc with
+    | some file, some off, some data, some sc =>
+      match writeAt file file.length off data ⟨sc, []⟩ with
+      | (e, file', sz, os) => "rc=" ++ errCode e ++ " file=" ++ dtok file' ++ " size=" ++ toString sz ++ tail os
+    | _, _, _, _ => "bad-op"
+  | ["ostream", fl, ops, sc] =>
+    match parseOOps ops, parseScript sc with
+    | some ops, some sc =>
+      if fl ≠ "s" ∧ fl ≠ "n" then "bad-op" else
+      match runOOps 0 ⟨[], 0, 0, fl = "n"⟩ ops ⟨sc, []⟩ with
+      | ((e, idx), o, os) => "rc=" ++ errCode e ++ "@" ++ toString idx ++ " " ++ showOstream o ++ tail os
+    | _, _ => "bad-op"
+  | ["istream", b, fl, d, ops, sc] =>
+    match b.toNat?, parseData d, parseOps ops, parseScript sc with
+    | some B, some data, some ops, some sc =>
+      if (fl ≠ "s" ∧ fl ≠ "n") ∨ B = 0 then "bad-op" else
+      match runOps (fileStream B) ⟨IStream.init data, ⟨[], 0, 0, fl = "n"⟩, 0⟩ ops ⟨sc, []⟩ with
+      | (obs, c, os) =>
+        " ".intercalate (obs.map showObs) ++ (if obs.isEmpty then "" else " ") ++
+        "st=" ++ (if c.s.eof then "1" else "0") ++ "," ++ toString c.s.off ++ "," ++ toString c.s.buf.length ++
+        " " ++ showOstream c.o ++ " ln=" ++ toString c.ln ++ tail os
+    | _, _, _, _ => "bad-op"
+  | ["xistream", b, bx, fl, d, ops, sc] =>
+    match b.toNat?, bx.toNat?, parseData d, parseOps ops, parseScript sc with
+    | some B, some BX, some data, some ops, some sc =>
+      if (fl ≠ "s" ∧ fl ≠ "n") ∨ B = 0 then "bad-op" else
+      let limit := 4 * data.length + 1000
+      match runOps (xfrmStream (fileStream B) toyCodec BX limit)
+          ⟨⟨IStream.init data, 0, 0, []⟩, ⟨[], 0, 0, fl = "n"⟩, 0⟩ ops ⟨sc, []⟩ with
+      | (obs, c, os) =>
+        " ".intercalate (obs.map showObs) ++ (if obs.isEmpty then "" else " ") ++
+        "xst=" ++ toString c.s.off ++ "," ++ toString c.s.buf.length ++ "," ++ toString c.s.k ++
+        " st=" ++ (if c.s.wrapped.eof then "1" else "0") ++ "," ++ toString c.s.wrapped.off ++ "," ++
+        toString c.s.wrapped.buf.length ++
+        " " ++ showOstream c.o ++ " ln=" ++ toString c.ln ++ tail os
+    | _, _, _, _, _ => "bad-op"
+  | ["xspec", b, bx, d, ops] =>
+    match b.toNat?, bx.toNat?, parseData d, parseOps ops with
+    | some B, some BX, some data, some ops =>
+      if B = 0 then "bad-op" else
+      let limit := 4 * data.length + 1000
+      match runOps (xfrmStream (Sqfs.IoLoops.Spec.idealStream B data) toyCodec BX limit)
+          ⟨⟨⟨0, 0⟩, 0, 0, []⟩, ⟨[], 0, 0, false⟩, 0⟩ ops OS.full with
+      | (obs, c, _) =>
+        " ".intercalate (obs.map showObs) ++ (if obs.isEmpty then "" else " ") ++
+        "out=" ++ dtok c.o.out ++ " ln=" ++ toString c.ln
+    | _, _, _, _ => "bad-op"
+  | ["xostream", bx, fl, ops, sc] =>
+    match bx.toNat?, parseOOps ops, parseScript sc with
+    | some BX, some ops, some sc =>
+      if fl ≠ "s" ∧ fl ≠ "n" then "bad-op" else
+      let limit := 4 * (ops.map fun o => (oopLen o)).sum + 1000
+      match xRunOOps toyCodec BX limit 0 ⟨⟨[], 0, 0, fl = "n"⟩, 0, []⟩ ops ⟨sc, []⟩ with
+      | ((e, idx), x, os) =>
+        "rc=" ++ errCode e ++ "@" ++ toString idx ++ " inbuf=" ++ toString x.inbuf.length ++ " k=" ++ toString x.k ++
+        " " ++ showOstream x.o ++ tail os
+    | _, _, _ => "bad-op"
+  | ["spec", b, d, ops] =>
+    match b.toNat?, parseData d, parseOps ops with
+    | some B, some data, some ops =>
+      if B = 0 then "bad-op" else
+      match runOps (Sqfs.IoLoops.Spec.idealStream B data) ⟨⟨0, 0⟩, ⟨[], 0, 0, false⟩, 0⟩ ops OS.full with
+      | (obs, c, _) =>
+        " ".intercalate (obs.map showObs) ++ (if obs.isEmpty then "" else " ") ++
+        "out=" ++ dtok c.o.out ++ " ln=" ++ toString c.ln
+    | _, _, _ => "bad-op"
+  | _ => "bad-op"
+
 def run (_args : List String) : IO Unit := do
-  IO.eprintln "sqfsmodel: model C12 not built yet"
+  lineLoop (← IO.getStdin) (← IO.getStdout) step
+
 end Driver.C12
